@@ -5,26 +5,30 @@ EXTENDS DpRules, Json, IOUtils
 
 Rec == ndJsonDeserialize(IOEnv.TRACE)
 
-VARIABLES l, rs, bad, cov, dead, runs
-vars == <<l, rs, bad, cov, dead, runs>>
+VARIABLES l, rs, bad, cov, dead, deadc, runs
+vars == <<l, rs, bad, cov, dead, deadc, runs>>
 NoCfg == [none |-> TRUE]
 
-TInit == l = 1 /\ rs = NoCfg /\ bad = <<>> /\ cov = [c \in AllClauses |-> 0] /\ dead = TRUE /\ runs = 0
+TInit == l = 1 /\ rs = NoCfg /\ bad = <<>> /\ cov = [c \in AllClauses |-> 0] /\ dead = TRUE /\ deadc = {} /\ runs = 0
 
 TNext ==
   /\ l <= Len(Rec)
   /\ l' = l + 1
   /\ LET e == Rec[l] IN
-     IF e.ev = "Cfg" THEN rs' = RuleInit(e) /\ dead' = FALSE /\ runs' = runs + 1 /\ UNCHANGED <<bad, cov>>
-     ELSE IF e.ev = "Reset" THEN dead' = TRUE /\ UNCHANGED <<rs, bad, cov, runs>>
-     ELSE IF dead /\ e.ev # "Hang" THEN UNCHANGED <<rs, bad, cov, dead, runs>>
+     IF e.ev = "Cfg" THEN rs' = RuleInit(e) /\ dead' = FALSE /\ deadc' = {} /\ runs' = runs + 1 /\ UNCHANGED <<bad, cov>>
+     ELSE IF e.ev = "Reset" THEN dead' = TRUE /\ UNCHANGED <<rs, bad, cov, runs, deadc>>
+     ELSE IF dead /\ e.ev # "Hang" THEN UNCHANGED <<rs, bad, cov, dead, deadc, runs>>
      ELSE LET r == IF e.ev = "Hang" THEN R("C05.hang", NoSig, rs, <<>>) ELSE RuleStep(rs, e) IN
           /\ rs' = r.rs
           /\ cov' = [c \in AllClauses |-> cov[c] + Cardinality({i \in DOMAIN r.hits : r.hits[i] = c})]
           /\ runs' = runs
-          /\ IF r.clause = "ok" THEN UNCHANGED <<bad, dead>>
-             ELSE /\ bad' = Append(bad, [l |-> l, clause |-> r.clause, sig |-> r.sig])
-                  /\ dead' = TRUE
+          (* every DP clause is a fact about the request/reply/event bookkeeping, which advances whether or   *)
+          (* not a clause failed: the run is judged further and each clause is reported once per run; only a *)
+          (* panic or hang ends the run                                                                       *)
+          /\ LET new == SelectSeq(r.all, LAMBDA c : c \notin deadc) IN
+             /\ bad' = bad \o [i \in 1..Len(new) |-> [l |-> l, clause |-> new[i], sig |-> r.sig]]
+             /\ deadc' = deadc \cup {r.all[i] : i \in DOMAIN r.all}
+             /\ dead' = (\E i \in DOMAIN r.all : r.all[i] \in {"C05.panic", "C05.hang"})
 
 TSpec == TInit /\ [][TNext]_vars
 
